@@ -756,8 +756,10 @@ func run(c *drv.Ctx) error {
 			cases, kinds = append(cases, rc), append(kinds, "corpus")
 		}
 		n := c.Count(160, 3000)
+		// streams of adjacent seeds of internal/rng are shifts of one another: decorrelate through one Fork
+		r := c.R.Fork()
 		for i := 0; i < n; i++ {
-			cases, kinds = append(cases, genCase(c.R.Fork())), append(kinds, "random")
+			cases, kinds = append(cases, genCase(r.Fork())), append(kinds, "random")
 		}
 	}
 	retried := 0
